@@ -5,6 +5,7 @@ import FluteModel.Props.C04WireAbs
 import FluteModel.Props.C04Obj
 import FluteModel.Props.C04Multi
 import FluteModel.Props.C04Whole
+import FluteModel.Props.C04MultiWhole
 import FluteModel.Props.Ring
 -- session level (engine `recv`): Flute.Props.C04; parser totality + abstraction to the receiver's packet records
 -- (engine `wire`): Flute.Props.C04.Wire; object level (engine `orecv`): Flute.Props.C04.Obj; MultiReceiver entry point
